@@ -1,6 +1,7 @@
 package interp
 
 import (
+	"encoding/base64"
 	"fmt"
 	"go/types"
 	"math/big"
@@ -216,7 +217,7 @@ func registerHook(in *Interp) {
 		return th.equals(a[0], a[1])
 	})
 	in.reg(h+"Note", func(th *Thread, fn *ssa.Function, a []Value) Value {
-		th.ex.printed = append(th.ex.printed, describe(a[0]))
+		th.ex.notes = append(th.ex.notes, a[0])
 		return nil
 	})
 	in.reg(h+"Durable", func(th *Thread, fn *ssa.Function, a []Value) Value {
@@ -236,6 +237,19 @@ func (th *Thread) callerPos() string {
 }
 
 // ---------- math/big ----------
+
+type bigInt = big.Int
+
+func newBig(i int64) *big.Int { return big.NewInt(i) }
+
+func parseBigDec(s string) (*big.Int, bool) {
+	// JSON numbers accepted by big.Int.UnmarshalJSON: plain integers
+	return new(big.Int).SetString(s, 10)
+}
+
+func stdBase64(b []byte) string { return base64.StdEncoding.EncodeToString(b) }
+
+func stdBase64Decode(s string) ([]byte, error) { return base64.StdEncoding.DecodeString(s) }
 
 func parseCanonicalDec(s string) (*big.Int, bool) {
 	if s == "" {
